@@ -93,6 +93,9 @@ fn note_depth(what: &str) {
     }
 }
 
+pub static ERRNUL: std::sync::atomic::AtomicBool = std::sync::atomic::AtomicBool::new(false);
+pub static TRACK: std::sync::atomic::AtomicBool = std::sync::atomic::AtomicBool::new(false);
+
 pub fn check_hook(_url: &str, req: PatchCheckRequest) -> anyhow::Result<PatchCheckResponse> {
     note_depth("check");
     let h = *crate::sched::NET_HOOK.lock().unwrap();
@@ -118,6 +121,9 @@ pub fn check_hook(_url: &str, req: PatchCheckRequest) -> anyhow::Result<PatchChe
         None => SPAWNED_ENV.lock().unwrap().as_ref().and_then(|e| e.0.clone()),
     };
     match &resp {
+        None if ERRNUL.load(std::sync::atomic::Ordering::SeqCst) => {
+            anyhow::bail!("injected check failure\0with an interior NUL and a tail long enough to change the size class of the block")
+        }
         None => anyhow::bail!("injected check failure"),
         Some(r) => Ok(PatchCheckResponse {
             patch_available: r.avail,
@@ -144,6 +150,9 @@ pub fn download_hook(url: &str) -> anyhow::Result<Vec<u8>> {
         None => SPAWNED_ENV.lock().unwrap().as_ref().and_then(|e| e.1.clone()),
     };
     match dl {
+        None if ERRNUL.load(std::sync::atomic::Ordering::SeqCst) => {
+            anyhow::bail!("injected download failure\0with an interior NUL and a tail long enough to change the size class of the block")
+        }
         None => anyhow::bail!("injected download failure"),
         Some(b) => Ok(b),
     }
@@ -621,6 +630,9 @@ impl World {
         }
         let s = unsafe { CStr::from_ptr(p) }.to_string_lossy().to_string();
         unsafe { c_api::shorebird_free_string(p) };
+        if TRACK.load(std::sync::atomic::Ordering::SeqCst) {
+            crate::track::disarm();
+        }
         let pre = format!("{}/patches/", self.storage.to_str().unwrap());
         match s
             .strip_prefix(&pre)
@@ -633,11 +645,18 @@ impl World {
 
     pub fn update(&self, ch: &Option<String>) -> String {
         let c = ch.as_ref().map(|s| CString::new(s.as_str()).unwrap());
+        let tr = TRACK.load(std::sync::atomic::Ordering::SeqCst);
+        if tr {
+            crate::track::arm();
+        }
         let r = c_api::shorebird_update_with_result(
             c.as_ref().map_or(std::ptr::null(), |s| s.as_ptr()),
         );
         let status = unsafe { (*r).status };
         unsafe { c_api::shorebird_free_update_result(r as *mut c_api::UpdateResult) };
+        if tr {
+            crate::track::disarm();
+        }
         status.to_string()
     }
 
@@ -772,7 +791,12 @@ impl World {
                 "unit".into()
             }
             ["nextnum"] => c_api::shorebird_next_boot_patch_number().to_string(),
-            ["nextpath"] => self.path_out(c_api::shorebird_next_boot_patch_path()),
+            ["nextpath"] => {
+                if TRACK.load(std::sync::atomic::Ordering::SeqCst) {
+                    crate::track::arm();
+                }
+                self.path_out(c_api::shorebird_next_boot_patch_path())
+            }
             ["curnum"] => c_api::shorebird_current_boot_patch_number().to_string(),
             ["start"] => {
                 c_api::shorebird_report_launch_start();
@@ -940,6 +964,12 @@ pub fn main(args: &[String]) -> i32 {
             "dls" => {
                 dls_on = toks[1] == "on";
             }
+            "errnul" => {
+                ERRNUL.store(toks[1] == "on", std::sync::atomic::Ordering::SeqCst);
+            }
+            "track" => {
+                TRACK.store(toks[1] == "on", std::sync::atomic::Ordering::SeqCst);
+            }
             "trace" => {
                 tracing = true;
                 IS_MAIN.with(|m| m.set(true));
@@ -1006,6 +1036,9 @@ pub fn main(args: &[String]) -> i32 {
     let v = DEPTH_VIOLATIONS.lock().unwrap();
     for x in v.iter() {
         writeln!(out, "DEPTH-VIOLATION {}", x).unwrap();
+    }
+    if let Some(m) = crate::track::report() {
+        writeln!(out, "{}", m).unwrap();
     }
     0
 }
